@@ -246,3 +246,41 @@ func VH_MS_xz() {
 		vAssert(vIsPrefix(out, want), "what was delivered is a prefix of the concatenation")
 	}
 }
+
+// C05, last sentence: multi-stream files; every cut that is not exactly on a
+// stream or 4-byte padding boundary must give an error.
+func VH_CUT_ms() {
+	cfgB := vSmallCfg()
+	cfgB.NoCheckSum = true
+	a := vMakeXZ(vSmallCfg(), []byte("abc"))
+	b := vMakeXZ(cfgB, []byte("de"))
+	pad := 4 * vConcretize(int(vNondetU8("pad"))%3)
+	var in []byte
+	in = append(in, a...)
+	in = append(in, make([]byte, pad)...)
+	in = append(in, b...)
+	in = append(in, make([]byte, 4)...)
+	frag := vConcretize(int(vNondetU8("frag")) % 3)
+	// cuts inside the first stream are VH_CUT_xz; here from the end of A on
+	cut := len(a) + vConcretize(int(vNondetU16("cut"))%(len(in)-len(a)))
+	r, err := NewReader(&vSrc{data: in, end: cut, frag: frag})
+	vAssert(err == nil, "first stream opens")
+	out, err := vReadAll(r, 5)
+	boundary := false
+	if cut <= len(a)+pad {
+		boundary = (cut-len(a))%4 == 0 // end of A or a padding boundary
+	} else if cut >= len(a)+pad+len(b) {
+		boundary = (cut-len(a)-pad-len(b))%4 == 0
+	}
+	if boundary {
+		vAssert(err == io.EOF, "cut on a stream or padding boundary is a valid shorter file")
+		if cut >= len(a)+pad+len(b) {
+			vAssert(string(out) == "abcde", "both streams decoded")
+		} else {
+			vAssert(string(out) == "abc", "first stream decoded")
+		}
+	} else {
+		vAssert(err != nil && err != io.EOF, "cut inside a later stream or inside padding is an error")
+		vAssert(vIsPrefix(out, []byte("abcde")), "delivered bytes are a prefix of the content")
+	}
+}
